@@ -8,6 +8,10 @@ LOGGED_ONLY_REVIEWED = {
     'bitar::archive_reader::http_range_request::HttpRangeRequest::poll_read': 'retry loop: the error is returned once the retry budget is spent (R-RETRY)',
     'bitar::archive_reader::http_range_request::{impl#0}::single::{closure#0}': 'retry loop: the error is returned once the retry budget is spent (R-RETRY)',
 }
+# one named function each, with the reason
+ITEM_IGNORED_REVIEWED = {
+    'bita::cli::parse_input_archive_config': 'the input is tried as a URL only after it was not found as a file: a parse failure selects the "no such input" error below, it is not an error of its own',
+}
 DISCARDERS = ('core::result::Result::ok', 'core::result::Result::err', 'core::result::Result::unwrap_or',
               'core::result::Result::unwrap_or_default', 'core::result::Result::unwrap_or_else', 'core::result::Result::map_or',
               'core::result::Result::map_or_else', 'core::mem::drop', 'core::result::Result::iter', 'core::result::Result::into_iter',
@@ -53,7 +57,7 @@ def uses_index(b):
 
 def scope(facts, cg):
     roots = [b.id for b in facts.bodies.values() if b.crate == 'bita' and b.q in (
-        'bita::clone_cmd::clone_cmd', 'bita::compress_cmd::compress_cmd', 'bita::info_cmd::info_cmd')]
+        'bita::clone_cmd::clone_cmd', 'bita::compress_cmd::compress_cmd', 'bita::info_cmd::info_cmd', 'bita::cli::parse_opts')]
     return cg.reachable(roots), roots
 
 
@@ -149,7 +153,7 @@ def run(facts, cg):
                     err_payload.append(uloc)
                 if any(p['k'] == 'downcast' and p.get('n') == 'Ok' for p in rest):
                     ok_payload.append(uloc)
-            if ok_payload and not err_payload and not moved_on:
+            if ok_payload and not err_payload and not moved_on and b.q not in ITEM_IGNORED_REVIEWED:
                 finding('R-ERR', b, 'err-item-ignored:%s' % how.split('::')[-1],
                         'the item produced at %s (%s) is only matched as %s(Ok(..)): an error item is matched away unseen and the '
                         'function carries on as if the stream had ended' % (loc, how, '('.join(chain)))
@@ -165,6 +169,39 @@ def run(facts, cg):
     instances.append({'rule': 'R-EXACTIO', 'obligations': n_counts, 'counted_io_calls': n_counts})
     if not roots or n_results < 50:
         findings.append({'rule': 'R-ERR', 'key': 'R-ERR|floor', 'function': '-', 'what': 'entry points not found / too few Result values (cannot decide)'})
+    return instances, findings
+
+
+# errors that mean "this data is not what the archive says it is": whoever sees one must fail, not look for a way to carry on
+FATAL = ('bitar::chunk::ArchiveChunk::verify', 'bitar::chunk::CompressedArchiveChunk::decompress', 'bitar::chunk::CompressedChunk::decompress',
+         'bitar::archive::Archive::try_init')
+
+
+def run_fatal(facts, cg):
+    from .r_misc import _variant_edges
+    from .r_steps import exit_outcomes_from
+    instances, findings = [], []
+    n = 0
+    for b in facts.bodies.values():
+        if b.crate != 'bita' or b.generated:
+            continue
+        for bi, t in b.calls():
+            if 'q' not in t['callee'] or callee_q(t) not in FATAL or t['dest']['p']:
+                continue
+            if b.lty(t['dest']['l']).get('adt') != RESULT:
+                continue        # an async fn: its future is dispatched where it is awaited (inlined poll sites carry the Result)
+            n += 1
+            edges = _variant_edges(b, t['dest']['l'], 1, conveyors=True)
+            bad = [tg for sbi, tg in edges if not (exit_outcomes_from(b, tg) <= {'Err'})]
+            instances.append({'rule': 'R-ERR(fatal)', 'function': b.q, 'call': callee_q(t), 'at': t['loc'], 'error_dispatches': len(edges), 'non_fatal': len(bad)})
+            if bad:
+                key = 'R-ERR|%s|not-fatal:%s' % (b.q, callee_q(t).split('::')[-1])
+                if key not in {x['key'] for x in findings}:
+                    findings.append({'rule': 'R-ERR', 'key': key, 'function': b.q,
+                                     'what': 'the error of %s at %s (data that is not what the archive says) can end in a success of this function: a chunk '
+                                             'that failed verification is replaced or skipped instead of failing the clone' % (callee_q(t), t['loc'])})
+    if n < 2:
+        findings.append({'rule': 'R-ERR', 'key': 'R-ERR|-|floor-fatal', 'function': '-', 'what': 'expected the decompress / verify calls of the clone command, found %d (cannot decide)' % n})
     return instances, findings
 
 
